@@ -23,14 +23,14 @@ Open Scope Z_scope.
 
 (* ---- the part of the object graph the traversal code reads ---- *)
 Record objgraph : Type := {
-  node : Type;
-  edge : Type;
-  attr_child_nodes : node -> list node;     (* x._child_nodes *)
-  attr_parent_node : node -> option node;   (* x._parent_node   (None = Python None) *)
-  attr_edge : node -> edge;                 (* x._edge  (= x.edge, checked by the translator) *)
-  attr_head_node : edge -> node;            (* e._head_node *)
-  attr_age : node -> Z;                     (* x.age at the time of the call *)
-  obj_is : node -> node -> bool             (* a is b *)
+  gnode : Type;
+  gedge : Type;
+  attr_child_nodes : gnode -> list gnode;     (* x._child_nodes *)
+  attr_parent_node : gnode -> option gnode;   (* x._parent_node   (None = Python None) *)
+  attr_edge : gnode -> gedge;                (* x._edge  (= x.edge, checked by the translator) *)
+  attr_head_node : gedge -> gnode;           (* e._head_node *)
+  attr_age : gnode -> Z;                    (* x.age at the time of the call *)
+  obj_is : gnode -> gnode -> bool            (* a is b *)
 }.
 
 (* ---- Python lists ---- *)
